@@ -207,7 +207,7 @@ func locOrigins(v ssa.Value) []ssa.Value {
 func runP1(p *an.Prog, r *an.Result) {
 	roles := GetRoles(p)
 	pv := getProv(p)
-	for _, pr := range roles.Problems {
+	for _, pr := range roles.FilterProblems {
 		r.Bad("-", "roles: "+pr, token.NoPos, "an anchor the rule needs could not be resolved")
 	}
 	isBoundary := map[*ssa.Function]*Boundary{}
